@@ -74,6 +74,14 @@ func balanceTrace(e *env) error {
 			}
 			log = append(log, p)
 		}
+		if t%5 == 1 {
+			// a deep chain: 10..12 segments
+			var p []int
+			for k := 0; k < 10+rng.Intn(3); k++ {
+				p = append(p, 1+rng.Intn(nseg))
+			}
+			log = append(log, p)
+		}
 		if t%2 == 0 {
 			prefixFree++
 		}
@@ -88,6 +96,17 @@ func balanceTrace(e *env) error {
 			kept := log[:0]
 			for _, p := range log {
 				if !(len(p) == 1 && p[0] == traceXName[0]) {
+					kept = append(kept, p)
+				}
+			}
+			log = kept
+		}
+		if t%7 == 3 && t%3 != 2 {
+			// the first segment is the EMPTY string (names like "a/", "/b", "a//b"): it sorts before every other
+			segs[1] = ""
+			kept := log[:0]
+			for _, p := range log {
+				if !(len(p) == 1 && p[0] == 1) && !(len(p) >= 1 && p[0] == 1 && len(p) > 1 && false) { // the name "" itself cannot be written
 					kept = append(kept, p)
 				}
 			}
@@ -113,6 +132,9 @@ func balanceTrace(e *env) error {
 		// names sort before and after the element's (lines in random order): the resolved amount is the same
 		others := []string{"0 first", "M middle", "other", "zz last", "~ very last"}
 		for k, f := range traceXBook {
+			if join(f.Path) == "" {
+				continue // (the empty first segment: a heading cannot be empty; that path is not logged either)
+			}
 			var lines, midLines []string
 			for _, o := range others {
 				switch rng.Intn(3) {
